@@ -151,6 +151,7 @@ impl<'tree> Node<'tree> {
     fn subgame(&self) -> Vec<Edge> {
         self.history()
             .into_iter()
+            .rev()
             .take_while(|e| e.is_choice())
             .take(crate::MAX_DEPTH_SUBGAME)
             .copied()
